@@ -88,6 +88,7 @@ package stream
 //@   ensures#eof (r.err == io.EOF && old(r.err) == nil) ==> len(r.src.$rem) == 0 && len(old(r.src.$rem)) <= ECS              [C02 C12]
 //@   ensures#noeofontrunc (old(r.err) == nil && len(old(r.unread)) == 0 && len(p) > 0 && len(old(r.src.$rem)) == 0) ==> err != nil && err != io.EOF   [C02 C13]
 //@   ensures#fresh (old(r.err) == nil && len(old(r.unread)) == 0 && len(p) > 0 && err == nil) ==> n <= len(p) && sub(bytes(p), 0, n) == sub(open(r.a.$key, nonceOf(old(ctr(r.nonce)), r.nonce[11]), sub(old(r.src.$rem), 0, min(ECS, len(old(r.src.$rem))))), 0, n)   [C01 C02 C12]
+//@   ensures#rest (old(r.err) == nil && len(old(r.unread)) == 0 && len(p) > 0 && err == nil) ==> bytes(r.unread) == sub(open(r.a.$key, nonceOf(old(ctr(r.nonce)), r.nonce[11]), sub(old(r.src.$rem), 0, min(ECS, len(old(r.src.$rem))))), n, len(sub(old(r.src.$rem), 0, min(ECS, len(old(r.src.$rem))))) - 16)   [C01 C02 C12]
 //@   ensures#counter (old(r.err) == nil && len(old(r.unread)) == 0 && len(p) > 0 && err == nil) ==> ctr(r.nonce) == old(ctr(r.nonce)) + 1    [C02 C06]
 //@   ensures#final (old(r.err) == nil && r.err != nil && err == nil) ==> r.nonce[11] == 1                                  [C02]
 //@   modifies r.unread, r.buf, r.nonce, r.err, r.src.$rem, p[:]
